@@ -8,28 +8,48 @@ class HarnessCrash(Exception):
         self.last_input = last_input
 
 
-def harness(v, pid, binary, cmd, tier, seed, need_rocks=False, extra_args=(), timeout=3000, race=False):
-    """Scratch copy -> build -> run one harness command. Returns (scratch, result dict) ; caller cleans up."""
+def run_cmd(s, b, cmd, tier, seed, extra_args=(), timeout=3000, sub=None):
+    """Run one harness command of an already built binary; its output goes to s.work (or s.work/<sub>)."""
+    work = s.work if sub is None else os.path.join(s.work, sub)
+    os.makedirs(work, exist_ok=True)
+    for fn in ("result.json", "current_input.json"):
+        if os.path.exists(os.path.join(work, fn)):
+            os.remove(os.path.join(work, fn))
+    rc, out, dt = vlib.sh([b, cmd, "--seed", str(seed), "--tier", tier, "--out", work] + list(extra_args),
+                          cwd=work, timeout=timeout, env=vlib.GOENV)
+    res_path = os.path.join(work, "result.json")
+    if rc != 0 or not os.path.exists(res_path):
+        tail = out[-3000:]
+        last = os.path.join(work, "current_input.json")
+        last_input = open(last).read() if os.path.exists(last) else None
+        if last_input is not None:
+            raise HarnessCrash("harness process died (rc=%s) while handling an input:\n%s" % (rc, tail[-1500:]), last_input)
+        raise RuntimeError("harness command %s failed rc=%s:\n%s" % (cmd, rc, tail))
+    res = json.load(open(res_path))
+    res["_stdout"] = out[-2000:]
+    res["_wall"] = dt
+    res["_work"] = work
+    return res
+
+
+def build(pid, binary, need_rocks=False, race=False):
     s = vlib.Scratch(pid)
     s.prepare(need_rocks)
     b, log = s.build(binary, race=race)
     if b is None:
         s.cleanup()
         raise RuntimeError("harness does not build against the current tree:\n" + log[-3000:])
-    rc, out, dt = vlib.sh([b, cmd, "--seed", str(seed), "--tier", tier, "--out", s.work] + list(extra_args),
-                          cwd=s.work, timeout=timeout, env=vlib.GOENV)
-    res_path = os.path.join(s.work, "result.json")
-    if rc != 0 or not os.path.exists(res_path):
-        tail = out[-3000:]
-        last = os.path.join(s.work, "current_input.json")
-        last_input = open(last).read() if os.path.exists(last) else None
+    return s, b
+
+
+def harness(v, pid, binary, cmd, tier, seed, need_rocks=False, extra_args=(), timeout=3000, race=False):
+    """Scratch copy -> build -> run one harness command. Returns (scratch, result dict) ; caller cleans up."""
+    s, b = build(pid, binary, need_rocks, race)
+    try:
+        res = run_cmd(s, b, cmd, tier, seed, extra_args, timeout)
+    except Exception:
         s.cleanup()
-        if last_input is not None:
-            raise HarnessCrash("harness process died (rc=%s) while handling an input:\n%s" % (rc, tail[-1500:]), last_input)
-        raise RuntimeError("harness command %s %s failed rc=%s:\n%s" % (binary, cmd, rc, tail))
-    res = json.load(open(res_path))
-    res["_stdout"] = out[-2000:]
-    res["_wall"] = dt
+        raise
     return s, res
 
 
@@ -73,3 +93,33 @@ def node_harness(v, pid, cmd, tier, seed, rule, timeout=3000):
         return None, None
     absorb(v, res, rule)
     return s, res
+
+
+def node_session(v, pid, cmds, tier, seed, rule, prefixes=None, timeout=3000, race=False):
+    """Build the node harness once and run several commands. Violations whose signature does not start with one of
+    `prefixes` (default: the property id) belong to another property's check (which runs the same command) and are only
+    counted.  Returns (scratch, {cmd: result}) - caller cleans up the scratch."""
+    prefixes = tuple(prefixes or (pid,))
+    s, b = build(pid, "node", need_rocks=True, race=race)
+    results = {}
+    v.coverage["rule"] = rule
+    for cmd in cmds:
+        try:
+            res = run_cmd(s, b, cmd, tier, seed, timeout=timeout, sub=cmd)
+        except HarnessCrash as e:
+            m = re.search(r"(panic: [^\n]*|fatal error: [^\n]*|Assertion[^\n]*)", str(e))
+            why = m.group(1) if m else "process died"
+            v.violation("%s:process-death:%s" % (pid, cmd), "the process hosting the node(s) died during a scenario of `%s`: %s" % (cmd, why[:300]),
+                        dict(kind="process-death", command=cmd, scenario=e.last_input[:4000], seed=seed, tier=tier))
+            v.coverage["evaluations"] = v.coverage.get("evaluations", 0) + 1
+            v.coverage.setdefault("distinct_nontrivial", 2)
+            v.coverage.setdefault("samples", []).append(dict(died_during=e.last_input[:600]))
+            continue
+        other = [x for x in (res.get("violations") or []) if not x["signature"].startswith(prefixes)]
+        res["violations"] = [x for x in (res.get("violations") or []) if x["signature"].startswith(prefixes)]
+        if other:
+            v.coverage.setdefault("signals_for_other_properties", []).extend(sorted(set(x["signature"] for x in other)))
+        absorb(v, res, rule)
+        v.coverage.setdefault("commands", {})[cmd] = dict(wall_s=round(res["_wall"], 1), **{k: n for k, n in res.get("stats", {}).items() if k in ("evaluations", "distinct_nontrivial")})
+        results[cmd] = res
+    return s, results
